@@ -284,7 +284,8 @@ def exec_run(case):
     with scratch_dir() as od:
         np.random.seed(case["seed"])
         s = make_sampler(t, cfg, output_dir=od)
-        with patched_parallel_mcmc(attach(s)), quiet():
+        obs_first = attach(s)
+        with patched_parallel_mcmc(obs_first), quiet():
             lib_call(s.run, n_total=3 * case["N"], progress=False, save_every=2 if case["resume"] else None,
                      what=f"Sampler.run(cluster_every={case['cluster_every']}, n_max_clusters={case['n_max_clusters']})")
         if case["resume"]:
@@ -292,13 +293,15 @@ def exec_run(case):
             cks = [f for f in cks]
             if cks:
                 f = cks[len(cks) // 2]
-                s2 = make_sampler(make_target(case), cfg, output_dir=od)
+                # a fresh sampler - or, in half of the cases, the SAME object (its trainer, resampler and clusterer have been used)
+                same_object = case["seed"] % 2 == 1
+                s2 = s if same_object else make_sampler(make_target(case), cfg, output_dir=od)
                 np.random.seed(case["seed"] + 1)
-                with patched_parallel_mcmc(attach(s2)), quiet():
+                with patched_parallel_mcmc(obs_first if same_object else attach(s2)), quiet():
                     lib_call(s2.run, n_total=4 * case["N"], progress=False, resume_state_path=f,
                              what=f"Sampler.run(resume_state_path=<iteration {os.path.basename(f)}>, cluster_every={case['cluster_every']})")
     classes = ["cluster_every=%d" % case["cluster_every"], "cap=%s" % case["n_max_clusters"], "kernel:" + case["kernel"],
-               "resume" if case["resume"] else "no-resume"]
+               ("resume-same-object" if case["seed"] % 2 else "resume-fresh-object") if case["resume"] else "no-resume"]
     if stats["nonrefit"]:
         classes.append("has-non-refit-mutation")
     return {"nontrivial": stats["k2"] >= 1, "classes": classes,
